@@ -208,7 +208,33 @@ Theorem map_T3_residue_refuted :
   x ≠ y ∧ x' ≠ y' ∧ x = x' ∧ y = y'.
 Proof. compute_witness. Qed.
 
+(** T3 under per-actor (non-causal) delivery changes READS: B's update of key 0 carries a
+    nested remove of member 1 (it had seen A's add); C receives B's update before A's (per-actor
+    order allows it) and removes key 0 with the context [get] gives it, {B:1}.  A replica that
+    receives B's update, C's remove and then A's add drops the entry together with the parked
+    nested remove, so the add survives; causal delivery of the same three ops leaves the set
+    empty.  Refutes C08 ("per-actor delivery order suffices") and the value half of C05 for
+    Map<_, Orswot>. *)
+Theorem map_T3_per_actor_refuted :
+  let s0 : cmap orswot := mnew in
+  let opA := upd_or_add s0 0 0 1 in
+  let b := or_apply s0 opA in
+  let opB := upd_or_rm b 1 0 1 in
+  let c := or_apply s0 opB in
+  let opC : mop oop := rm_key oop c 0 in
+  let deliver := foldl or_apply s0 in
+  let causal := deliver [opA; opB; opC] in
+  let overtaking := deliver [opB; opC; opA] in
+  opA = MUp (Dot 0 1) 0 (OAdd (Dot 0 1) [1]) ∧
+  opB = MUp (Dot 1 1) 0 (ORm {[ 0 := 1 ]} [1]) ∧
+  opC = MRm {[ 1 := 1 ]} {[ 0 ]} ∧
+  read_or causal 0 = Some [] ∧
+  read_or overtaking 0 = Some [1] ∧
+  mclock causal = mclock overtaking.
+Proof. compute_witness. Qed.
+
 Print Assumptions map_T1_assoc_refuted.
+Print Assumptions map_T3_per_actor_refuted.
 Print Assumptions map_T1_order_refuted.
 Print Assumptions map_T2_resurrection_refuted.
 Print Assumptions map_T3_residue_refuted.
